@@ -40,8 +40,12 @@ def run(tier, seed):
     ns["CentiNeper"] = ns["Centi"] * measured.Neper
     ns["KiloBel"] = ns["Kilo"] * measured.Bel
     fams = ["Bel", "Decibel", "Neper", "Octave", "Semitone", "CentiNeper", "KiloBel"]
-    refs = [("(1 * Watt)", "Watt"), ("(1 * (Milli * Watt))", "Watt"), ("(20 * (Micro * Pascal))", "Pascal"), ("(1 * Volt)", "Volt"), ("(0.775 * Volt)", "(Milli*Volt)"),
-            ("(1 * Hertz)", "Hertz"), ("(440 * Hertz)", "(Kilo*Hertz)"), ("(1 * Meter / Second)", "Knot"), ("(2 * Joule / Second)", "Horsepower")]
+    groups = [(["(1 * Watt)", "(1 * (Milli * Watt))", "(1 * Horsepower)", "(2 * Joule / Second)", "(1 * MetricHorsepower)"], ["Watt", "Horsepower", "(Kilo*Watt)"]),
+              (["(20 * (Micro * Pascal))", "(1 * (Hecto * Pascal))", "(1 * Pascal)"], ["Pascal", "(Kilo*Pascal)", "(Mega*Pascal)"]),
+              (["(1 * Volt)", "(0.775 * Volt)"], ["Volt", "(Milli*Volt)"]),
+              (["(1 * Hertz)", "(440 * Hertz)"], ["Hertz", "(Kilo*Hertz)"]),
+              (["(1 * Meter / Second)", "(1 * Knot)", "(1 * Mile / Hour)"], ["Knot", "(Meter / Second)"])]
+    refs = [(r, q) for rs, qs in groups for r in rs for q in qs if q.strip("()").split("*")[-1] in ns or True]
     n = 250 if tier == "quick" else 20000
     failures, samples, evals, distinct = [], [], 0, set()
     while evals < n and len(failures) < 6:
